@@ -508,8 +508,9 @@ func (s *Store) snapshotActive() map[string]secretState {
 	defer s.active.Unlock()
 	m := make(map[string]secretState)
 	for name, cs := range s.active.m {
+		_, hasHandle := s.active.f[name]
 		m[name] = secretState{
-			expired: s.hasExpired(cs),
+			expired: !hasHandle && s.hasExpired(cs),
 			version: cs.Secret.Version,
 		}
 	}
